@@ -348,8 +348,8 @@ def endpoint_skeletons() -> dict[str, dict]:
             "PartsA": obj({"the-when": DATE, "the-color": ref("Color"), "stamp": DT, "ratio": NUM, "flag": BOOL}, ["the-when", "the-color"], additionalProperties=False),
             "PartsB": obj({"tag-list": arr(STR), "count": INT}, ["count"], additionalProperties=False),
             "Tiny": obj({"t-id": INT}, ["t-id"], additionalProperties=False),
-            "PartsD": obj({"meta": ref("Tiny"), "either": {"oneOf": [INT, STR]}, "u.id": UUID}, additionalProperties=False),
-            "PartsC": obj({"blob": {"type": "string", "format": "binary"}, "opt-blob": {"type": "string", "format": "binary"}, "note": STR, "level": {"type": "integer", "enum": [1, 2]}}, ["blob"]),
+            "PartsD": obj({"meta": ref("Tiny"), "either": {"oneOf": [INT, STR]}, "u.id": UUID}, ["either"], additionalProperties=False),
+            "PartsC": obj({"blob": {"type": "string", "format": "binary"}, "opt-blob": {"type": "string", "format": "binary"}, "opt-day": DATE, "level": {"type": "integer", "enum": [1, 2]}}, ["blob"]),
             "PartsFiles": obj({"blobs": arr({"type": "string", "format": "binary"}), "note": STR}, ["blobs"], additionalProperties=False),
         },
         {
